@@ -36,6 +36,7 @@ HEADLINE = [
     "AsynqModel.Futures.C10_spec_every_step",
     "AsynqModel.Futures.C10_spec_prefix",
     "AsynqModel.Futures.C10_spec_rejects",
+    "AsynqModel.Futures.C10_model_every_step",   # non-vacuity: every history of the model meets the hypothesis, at every position
     "AsynqModel.Futures.C10_stable_until_reset",
     "AsynqModel.Futures.C10_const_complete",
     "AsynqModel.Futures.C10_runs_step",
